@@ -219,6 +219,18 @@ func genClassLeaf(t *rapid.T, k Kind, cfg GenCfg, label string) *Val {
 			suf := rapid.SliceOfN(rapid.ByteRange('a', 'z'), 0, 6).Draw(t, label)
 			return &Val{S: Bytes(append(b, suf...))}
 		}
+	case "thrift-nest":
+		if k == String {
+			// long runs of one byte that a thrift compact decoder reads as "field of type struct" headers:
+			// a truncated file whose junk footer offset lands inside such a run drives the decoder into deep recursion
+			c := rapid.SampledFrom([]byte{',', '<', 'L', '\\', 'l', '|'}).Draw(t, label+"#c")
+			n := rapid.IntRange(66, 140).Draw(t, label+"#n")
+			b := make([]byte, n)
+			for i := range b {
+				b[i] = c
+			}
+			return &Val{S: Bytes(b)}
+		}
 	case "sentinel":
 		if k == String {
 			return &Val{S: Bytes(rapid.SampledFrom([]string{"__#NIL#__", "__#NIL#__", "__#NIL#_", "__#NIL#__a", "z", "", "A", "__#NIL#", "\xff"}).Draw(t, label))}
